@@ -787,20 +787,27 @@ private:
         return iterator(*this, old_size, element_address);
     }
 
+    // Zero-fills the elements of [start_idx, end_idx) whose segment is allocated; the segments of such a range
+    // are allocated lazily, so after a failed construction some of them may not exist.
+    void zero_unconstructed_range( size_type start_idx, size_type end_idx ) {
+        segment_table_type table = this->get_table();
+        for (size_type i = start_idx; i < end_idx; ++i) {
+            if (table[this->segment_index_of(i)].load(std::memory_order_relaxed) > this->segment_allocation_failure_tag) {
+                zero_unconstructed_elements(&this->internal_subscript(i), /*count =*/1);
+            }
+        }
+    }
+
     template <typename... Args>
     void internal_loop_construct( segment_table_type table, size_type start_idx, size_type end_idx, const Args&... args ) {
         static_assert(sizeof...(Args) < 2, "Too many parameters");
+        tbb::detail::suppress_unused_warning(table);
         for (size_type idx = start_idx; idx < end_idx; ++idx) {
             auto element_address = &base_type::template internal_subscript</*allow_out_of_range_access=*/true>(idx);
             // try_call API is not convenient here due to broken
             // variadic capture on GCC 4.8.5
             auto value_guard = make_raii_guard( [&] {
-                segment_index_type last_allocated_segment = this->find_last_allocated_segment(table);
-                size_type segment_size = this->segment_size(last_allocated_segment);
-                end_idx = end_idx < segment_size ? end_idx : segment_size;
-                for (size_type i = idx; i < end_idx; ++i) {
-                    zero_unconstructed_elements(&this->internal_subscript(i), /*count =*/1);
-                }
+                zero_unconstructed_range(idx, end_idx);
             });
             segment_table_allocator_traits::construct(base_type::get_allocator(), element_address, args...);
             value_guard.dismiss();
@@ -809,17 +816,13 @@ private:
 
     template <typename ForwardIterator>
     void internal_loop_construct( segment_table_type table, size_type start_idx, size_type end_idx, ForwardIterator first, ForwardIterator ) {
+        tbb::detail::suppress_unused_warning(table);
         for (size_type idx = start_idx; idx < end_idx; ++idx) {
             auto element_address = &base_type::template internal_subscript</*allow_out_of_range_access=*/true>(idx);
             try_call( [&] {
                 segment_table_allocator_traits::construct(base_type::get_allocator(), element_address, *first++);
             } ).on_exception( [&] {
-                segment_index_type last_allocated_segment = this->find_last_allocated_segment(table);
-                size_type segment_size = this->segment_size(last_allocated_segment);
-                end_idx = end_idx < segment_size ? end_idx : segment_size;
-                for (size_type i = idx; i < end_idx; ++i) {
-                    zero_unconstructed_elements(&this->internal_subscript(i), /*count =*/1);
-                }
+                zero_unconstructed_range(idx, end_idx);
             });
         }
     }
